@@ -152,6 +152,8 @@ func TestSequential(t *testing.T) {
 		c.ClassIf(pacerFirst, "pacing-rule-listed-before-the-reject-rules")
 		load(t, ms)
 		nextID, reloaded := 10, false
+		mixTypes := rapid.IntRange(0, 2).Draw(t, "mixResourceTypes") == 1 // the same resource name under several classifications
+		c.ClassIf(mixTypes, "mixed-resource-classifications")
 		passes := map[string][]adm{}
 		var live []*base.SentinelEntry
 		defer func() {
@@ -224,6 +226,9 @@ func TestSequential(t *testing.T) {
 			res := rapid.SampledFrom([]string{"a", "a", "b"}).Draw(t, "res")
 			b := uint32(rapid.SampledFrom([]int{1, 1, 1, 2, 3, 5, 30}).Draw(t, "batch"))
 			var bo []sentinel.EntryOption // a single token is asked for either explicitly or by leaving the option out
+			if mixTypes {
+				bo = append(bo, sentinel.WithResourceType(base.ResourceType(rapid.IntRange(0, 6).Draw(t, "resType"))))
+			}
 			if !(b == 1 && rapid.Bool().Draw(t, "plainCall")) {
 				bo = append(bo, sentinel.WithBatchCount(b))
 			}
